@@ -44,6 +44,8 @@ func TestRealProbe(t *testing.T) {
 		{"test-t-1-then-read", "[ -t 1 ]; read x", true},
 		{"mapfile-blocked-on-stdin", "mapfile lines", true},
 		{"select-blocked-on-stdin", "select o in a b; do :; done", true},
+		{"read-blocked-on-wrapped-file-stdin", "read x", true},
+		{"mapfile-blocked-on-wrapped-file-stdin", "mapfile lines", true},
 		{"loop-around-child", "while true; do sleep 0.05; done", false},
 		{"procsubst-with-child", "cat <(sleep 100)", false},
 	}
@@ -56,6 +58,7 @@ func TestRealProbe(t *testing.T) {
 		silentStdin bool
 		kt, bound   time.Duration
 	}
+	wrapStdinFor = map[string]bool{"read-blocked-on-wrapped-file-stdin": true, "mapfile-blocked-on-wrapped-file-stdin": true}
 	var jobs []job
 	// the kill timeout itself is a parameter of DefaultExecHandler: negative
 	// and zero mean "kill at once"
@@ -109,6 +112,12 @@ func TestRealProbe(t *testing.T) {
 	}
 }
 
+// fileWrapper is what a caller uses to count or log what the shell reads: it
+// embeds the file, so it has an Fd method, but it is not an *os.File.
+type fileWrapper struct{ *os.File }
+
+var wrapStdinFor map[string]bool
+
 // spawnTime is the median time of starting and reaping a trivial process.
 func spawnTime() time.Duration {
 	var ds []time.Duration
@@ -140,7 +149,12 @@ func runRealProbe(name, prog string, silentStdin bool, killTimeout, bound time.D
 		}
 		defer pr.Close()
 		defer pw.Close()
-		opts = append(opts, interp.StdIO(pr, nil, nil))
+		if wrapStdinFor[name] {
+			// not an *os.File, but it has all of its methods (Fd included)
+			opts = append(opts, interp.StdIO(fileWrapper{pr}, nil, nil))
+		} else {
+			opts = append(opts, interp.StdIO(pr, nil, nil))
+		}
 	}
 	r, err := interp.New(opts...)
 	if err != nil {
